@@ -134,7 +134,7 @@ def run(tier, replay=None):
         d = os.path.join(rundir, lab)
         r = dt.run_souffle(lab, d, text=b, args=args)
         shutil.rmtree(d, ignore_errors=True)
-        r.stdout = ""; r.stderr = r.stderr[-3000:]
+        r.stdout = ""; r.stderr = r.stderr if len(r.stderr) <= 6000 else r.stderr[:2500] + "\n[...]\n" + r.stderr[-3000:]
         return r
     with cf.ThreadPoolExecutor(NCPU) as ex:
         runs = list(ex.map(one, jobs))
